@@ -159,6 +159,12 @@ func (g *c07Gen) doc() J {
 		"properties": J{"id": J{"type": "integer", "format": "int64", "readOnly": true}, "name": J{"type": "string", "readOnly": true},
 			"active": J{"type": "boolean", "readOnly": true}, "label": J{"type": "string"}, "count": J{"type": "integer"},
 			"secret": J{"type": "string", "writeOnly": true}, "items": J{"type": "array", "items": J{"type": "string"}, "readOnly": true}}}
+	// maps whose value schema is nullable: a plain one and two whose values get a named type of their own (an enum, an
+	// object with additional members) — an explicit null entry must come back as null
+	schemas["FixC"] = J{"type": "object", "properties": J{
+		"plain":  J{"type": "object", "additionalProperties": J{"type": "string", "nullable": true}},
+		"labels": J{"type": "object", "additionalProperties": J{"type": "string", "enum": []interface{}{"a", "b"}, "nullable": true}},
+		"nested": J{"type": "object", "additionalProperties": J{"type": "object", "nullable": true, "properties": J{"x": J{"type": "string"}}, "additionalProperties": J{"type": "integer"}}}}}
 	return J{"openapi": "3.0.3", "info": J{"title": "t", "version": "1"}, "paths": J{}, "components": J{"schemas": schemas}}
 }
 
